@@ -368,12 +368,18 @@ where
     for<'a> K: Key<'a> + 'static,
 {
     let new_active = get_new_active_blob(inner).await?;
-    inner
-        .safe()
-        .write()
-        .await
-        .replace_active_blob(new_active)
-        .await?;
+    let mut safe = inner.safe().write().await;
+    // The blob was prepared before the lock was taken. If another blob has been created since then (a client
+    // found the storage without an active blob), installing the prepared one would put a blob with a smaller id
+    // behind a newer one: the order of the blobs would differ from the order of their ids, which is the order
+    // they get at the next start. The prepared blob is retired empty and a fresh one is created under the lock
+    let new_active = if inner.next_blob_id_value() != new_active.id() + 1 {
+        safe.push_closed_blob(new_active).await;
+        get_new_active_blob(inner).await?
+    } else {
+        new_active
+    };
+    safe.replace_active_blob(new_active).await?;
     Ok(())
 }
 
